@@ -1,4 +1,4 @@
-import RV.C13.Lemmas
+import RV.C13.LemmasG
 /-
   C13 — property theorems.  "Reading a graph never changes it: serialise, query, compare are pure."
 
@@ -53,6 +53,24 @@ def Statement_namespaces_may_grow : Prop :=
     (∀ n ∈ s.ns, n ∈ (s.run r).1.ns) ∧
     (∀ n ∈ (s.run r).1.ns, n ∈ s.ns ∨ r.mayBindNs s n)
 
+/-- Prefix bindings, EXACTLY: after a read the namespaces with a prefix are those that had one before plus
+    every namespace `mayBindNs` names — each predicate namespace of a triple the Turtle-family / RDF-XML
+    serializers write (pretty-xml: and each class namespace), every predicate namespace of the dataset for TriG,
+    the namespace of the IRI handed to `qname`; nothing for any other read. -/
+def Statement_namespaces_exact : Prop :=
+  ∀ (s : State) (r : ReadOp) (n : Nat), WF s →
+    (n ∈ (s.run r).1.ns ↔ n ∈ s.ns ∨ r.mayBindNs s n)
+
+/-- a read through a `Graph` VIEW of one context (`ds.get_context(g)`, any `g` — also an unknown or empty one):
+    quads, registered graphs (literally: a view never registers the default graph) and the dataset's configuration
+    unchanged, bindings only grow, and the same read again gives the same answer -/
+def Statement_view_read_frame : Prop :=
+  ∀ (s : State) (g : GName) (r : ReadOp), WF s →
+    (s.runView g r).1.quads = s.quads ∧ (s.runView g r).1.known = s.known ∧
+    (s.runView g r).1.defaultUnion = s.defaultUnion ∧ (s.runView g r).1.isDataset = s.isDataset ∧
+    (s.runView g r).1.dname = s.dname ∧ (∀ n ∈ s.ns, n ∈ (s.runView g r).1.ns) ∧
+    (s.runView g r).2 = ((s.runView g r).1.runView g r).2
+
 /-- the pre-fix JSON-LD serializer (kept as `serializeJsonldBuggy`) would satisfy the frame clause -/
 def Statement_jsonld_buggy_frame : Prop :=
   ∀ (s : State), WF s → s.serializeJsonldBuggy.1.quads = s.quads
@@ -105,11 +123,16 @@ theorem namespaces_may_grow : Statement_namespaces_may_grow := by
           · exact Or.inr h2
         · exact Or.inr h1
       | serializeLongTurtle nsOf c f =>
-        rcases preprocessTriples_ns_mem nsOf _ _ n hn with h1 | h1
-        · rcases preprocessTriples_ns_mem nsOf _ _ n h1 with h2 | h2
-          · exact Or.inl h2
-          · exact Or.inr h2
-        · exact Or.inr h1
+        simp only [State.run, State.serializeLongTurtle] at hn
+        split at hn
+        · exact Or.inl hn
+        · next hc =>
+          have hc' : (c && s.isDataset) = false := by simpa using hc
+          rcases preprocessTriples_ns_mem nsOf _ _ n hn with h1 | h1
+          · rcases preprocessTriples_ns_mem nsOf _ _ n h1 with h2 | h2
+            · exact Or.inl h2
+            · exact Or.inr ⟨hc', h2⟩
+          · exact Or.inr ⟨hc', h1⟩
       | serializeXml nsOf =>
         rcases bindPredicates_ns_mem nsOf _ _ n hn with h1 | h1
         · rcases bindPredicates_ns_mem nsOf _ _ n h1 with h2 | h2
@@ -131,6 +154,38 @@ theorem namespaces_may_grow : Statement_namespaces_may_grow := by
         · exact Or.inl h1
         · exact Or.inr h2
       | _ => exact absurd rfl hb
+
+theorem namespaces_exact : Statement_namespaces_exact := by
+  intro s r n h
+  constructor
+  · exact (namespaces_may_grow s r h).2.2 n
+  · rintro (h1 | h1)
+    · exact (namespaces_may_grow s r h).2.1 n h1
+    · cases r with
+      | serializeTurtle nsOf => exact preprocessTriples_ns_complete nsOf _ _ n h1
+      | serializeLongTurtle nsOf c f =>
+        obtain ⟨hc, h2⟩ := h1
+        simp only [State.run, State.serializeLongTurtle, hc]
+        exact preprocessTriples_ns_complete nsOf _ _ n h2
+      | serializeXml nsOf => exact bindPredicates_ns_complete nsOf _ _ n h1
+      | serializePrettyXml nsOf ty d =>
+        obtain ⟨t, ht, h2 | h2⟩ := h1
+        · exact (bindTypes_nsExt nsOf ty _ _).mono n (bindPredicates_ns_complete nsOf _ _ n ⟨t, ht, h2⟩)
+        · exact bindTypes_ns_complete nsOf ty _ _ n ⟨t, ht, h2⟩
+      | serializeTrig nsOf =>
+        obtain ⟨q, hq, hn⟩ := h1
+        apply trigPreprocess_ns_complete
+        refine ⟨q, by rw [contextsCall_quads]; exact hq, ?_, hn⟩
+        apply mem_trigContexts
+        rw [contextsCall_snd]
+        exact (contextsCall_known_mem s q.2).mpr (Or.inl (h.1 q hq))
+      | qname nsOf t => exact getQName_ns_gen h1
+      | _ => exact False.elim h1
+
+theorem view_read_frame : Statement_view_read_frame := by
+  intro s g r h
+  have f := runView_nsExt h g r
+  exact ⟨f.quads, f.known, f.union, f.isDataset, f.dname, f.mono, runView_deterministic h g r⟩
 
 theorem same_store_view_is_noop : Statement_same_store_view_is_noop := by
   intro s g h
@@ -229,8 +284,12 @@ example : (sample.run (.serializeTurtle sampleNs)).1 = { sample with ns := [7, 8
 /-- pretty-xml with `rdf:type` = 11 additionally binds the namespace of the class 20 -/
 example : (sample.run (.serializePrettyXml sampleNs 11 3)).1.ns = [7, 8, 9] := by decide
 /-- longturtle with `canon=True` reads a relabelled scratch copy but still binds in the ORIGINAL's tables -/
-example : (sample.run (.serializeLongTurtle sampleNs true (fun ts => ts.map (fun t => (t.1 + 100, t.2.1, t.2.2))))).1
-    = { sample with ns := [7, 8] } := by decide
+example : (({ sample with isDataset := false } : State).run
+      (.serializeLongTurtle sampleNs true (fun ts => ts.map (fun t => (t.1 + 100, t.2.1, t.2.2))))).1
+    = { sample with isDataset := false, ns := [7, 8] } := by decide
+/-- … on a `Dataset` `canon=True` raises while canonicalising (iteration yields quads): nothing is bound -/
+example : sample.run (.serializeLongTurtle sampleNs true (fun ts => ts.map (fun t => (t.1 + 100, t.2.1, t.2.2))))
+    = (sample, .err) := by decide
 /-- TriG registers the default graph (already registered here) and binds per context -/
 example : (sample.run (.serializeTrig sampleNs)).1 = { sample with ns := [7, 8] } := by decide
 /-- a patch against another dataset builds two scratch datasets; `sample` itself is returned -/
@@ -238,6 +297,16 @@ example : (sample.run (.serializePatchTarget [((1, 10, 2), .dflt), ((9, 9, 9), .
 /-- nquads / json-ld / queries / compare / skolemize(new_graph=None) bind nothing -/
 example : (sample.run .serializeCtxs).1 = sample ∧ (sample.run .serializeJsonld).1 = sample ∧
     (sample.run (.skolemize (· + 1000))).1 = sample := by decide
+
+/-! ### round g: exact bindings, views -/
+
+/-- Turtle through a VIEW of the blank-node-named graph (predicate 11, namespace 8): binds 8, registers nothing, and
+    the dataset keeps its own configuration; through a view of an UNKNOWN graph nothing at all happens -/
+example : (sample.runView (.bnode 3) (.serializeTurtle sampleNs)).1 = { sample with ns := [7, 8] } ∧
+    (sample.runView (.bnode 3) (.serializeTurtle sampleNs)).2 = .triples [(4, 11, 20), (4, 11, 5)] ∧
+    (sample.runView (.iri 77) (.serializeTurtle sampleNs)) = (sample, .triples []) := by decide
+/-- on `witness` (default graph not registered) a view read does NOT register it, the dataset's own `graphs()` does -/
+example : (witness.runView (.bnode 3) .serializeCtxs).1 = witness ∧ (witness.run .serializeCtxs).1 ≠ witness := by decide
 
 /-! ### `skolemize(new_graph=…)`: a fresh graph is a read, a graph of the same store is a write -/
 
